@@ -8,6 +8,7 @@ import (
 	"fmt"
 	"net"
 	"regexp"
+	"runtime"
 	"sort"
 	"strconv"
 	"strings"
@@ -451,6 +452,54 @@ func init() {
 			res += " " + strings.Join(out, " ")
 		}
 		return res + " keys+=[" + strings.Join(added, ",") + "] keys-=[" + strings.Join(removed, ",") + "]"
+	})
+	// pipe rawd: the same three calls the loop makes, made directly from the harness goroutine so that a
+	// panic anywhere in the pipeline is caught and attributed to this input (hostile-input stream, C08).
+	vReg("pipe rawd", func(a []string) (res string) {
+		w := vW
+		m := kv(a)
+		i, _ := strconv.Atoi(m["p"])
+		p := w.proxies[i]
+		w.barrier(p)
+		from, rcvd := parseListener(m["from"])
+		data := []byte(unhx(m["msg"]))
+		var ms0, ms1 runtime.MemStats
+		runtime.ReadMemStats(&ms0)
+		defer func() {
+			if r := recover(); r != nil {
+				res = "panic " + strings.ReplaceAll(strings.ReplaceAll(fmt.Sprintf("%v", r), " ", "_"), "\n", "_")
+			}
+		}()
+		msg, err := ParseMessage(bufio.NewReaderSize(bytes.NewBuffer(data), len(data)))
+		outcome := "parse-error"
+		if err == nil {
+			port, _ := strconv.Atoi(m["port"])
+			raw := NewRawMessage(unhx(m["peer"]), port, from, rcvd, msg)
+			if m["tcp"] != "-" {
+				id, _ := strconv.Atoi(m["tcp"])
+				c, ok := w.conns[id]
+				if !ok {
+					c = &vInConn{id: id, sink: &w.sink, remote: &net.TCPAddr{IP: net.ParseIP(unhx(m["peer"])), Port: port}, local: &net.TCPAddr{IP: net.ParseIP(from.addr), Port: from.port}}
+					w.conns[id] = c
+				}
+				msg.ReceivedFrom = from
+				raw.TcpConn = c
+			}
+			w.sink = w.sink[:0]
+			m2, err := p.handleRawMessage(raw)
+			if err == nil {
+				p.handleDialog(raw.PeerAddr, raw.PeerPort, m2)
+				p.HandleMessage(m2)
+			}
+			outcome = "processed sends=" + strconv.Itoa(len(w.sink)+len(w.collect()))
+		}
+		runtime.ReadMemStats(&ms1)
+		alloc := ms1.TotalAlloc - ms0.TotalAlloc
+		bound := uint64(256*len(data) + 4*1024*1024)
+		if alloc > bound {
+			return outcome + " alloc=big:" + strconv.FormatUint(alloc, 10)
+		}
+		return outcome + " alloc=ok"
 	})
 	vReg("pipe state", func(a []string) string {
 		w := vW
